@@ -93,7 +93,7 @@ Definition spec_txn (e : entry pat) (fm : field_map) (r : row) (t : stxn) : bool
   match expected_amount fm (e_account_type e) rec, col FPayee with
   | Some amount, Some payee0 =>
       let commodity := match col FCommodity with Some c => c | None => cs_primary (e_commodity e) end in
-      let hs := hits (csv_matches re_captures) frag0 (e_rewrite e)
+      let hs := hits (csv_matches re_captures) frag0 (compile (e_rewrite e))
                      {| rc_payee := payee0; rc_category := col FCategory;
                         rc_secondary_commodity := col FSecondaryCommodity |} in
       let default_conv := match num FRate, num FSecondaryAmount, col FSecondaryCommodity with
